@@ -57,6 +57,14 @@ def oracle(case):
         opts["column_fmt"] = {int(k): v for k, v in cf.items()}
     desc = {"curves": [["C%d" % j, "", "", "", col] for j, col in enumerate(cols)]}
     las = build.build_las(desc)
+    if case.get("fmt_first"):
+        # a previous write with another fmt and the SAME column_fmt dict object: write() must not keep state in it
+        first = dict(opts, fmt=case["fmt_first"])
+        t0 = attempt(build.write_text, las, **first)
+        if is_raised(t0):
+            out.fail("write-raises|" + t0.bucket, "%s\nopts=%r" % (t0, first))
+            return out
+        out.cls("second-write-same-column_fmt-dict")
     text = attempt(build.write_text, las, **opts)
     wrap = bool(opts.get("wrap"))
     feats = []
@@ -198,8 +206,8 @@ def cases(draw, max_rows=6):
     # first decide a provisional number of curves to size things
     c0 = draw(st.integers(1, 8))
     col_fmt = {}
-    if draw(st.integers(0, 3)) == 0:
-        for j in draw(st.lists(st.integers(0, 39), max_size=3, unique=True)):
+    if draw(st.integers(0, 2)) == 0:
+        for j in draw(st.lists(st.integers(0, 39), min_size=1, max_size=3, unique=True)):
             col_fmt[str(j)] = draw(fmts())
 
     def f_of(j):
@@ -265,7 +273,10 @@ def cases(draw, max_rows=6):
     col_fmt = {k_: v for k_, v in col_fmt.items() if int(k_) < c}
     if col_fmt:
         opts["column_fmt"] = col_fmt
-    return dict(cols=cols, opts=opts, lnf_kind=lnf_kind)
+    case = dict(cols=cols, opts=opts, lnf_kind=lnf_kind)
+    if col_fmt and draw(st.booleans()):
+        case["fmt_first"] = draw(st.sampled_from(["%.1f", "%.2f", "%.0f"]))
+    return case
 
 
 def wrap_multiples(tier):
